@@ -442,6 +442,8 @@ var c18Wellformed = []string{
 	`script S { switch ( var ( V ) ) { case 1 : break foo case 2 : switch ( var ( W ) ) { case 3 : a case 4 : b } } } script S2 { while ( flag ( A ) ) { c break d } if ( flag ( B ) ) { e } else { f } do { continue } while ( flag ( A ) ) }`,
 	`const P = ( BASE + 1 ) const Q = ITEM_A ITEM_B mart M { P ITEM_C Q } movement V { Q * 2 P } script S3 { switch ( var ( P ) ) { case Q : cmd ( P , Q ) } }`,
 	`mapscripts M { T1 : L T2 { cmd if ( flag ( A ) ) { end } } T3 [ VAR_A , 1 : L2 VAR_B , K { cmd ( "t$" ) } ] }`,
+	// texts named like the labels of inline map scripts (and of their sub-labels)
+	`mapscripts M { T2 { cmd if ( flag ( A ) ) { end } } T3 [ VAR_A , 1 { cmd } ] } text M_T2 { "x$" } text M_T3_0 { "y$" } text M_T2_1 { "z$" }`,
 }
 
 var c18TokRe = regexp.MustCompile("`[^`]*`|[A-Za-z_][A-Za-z0-9_]*\"[^\"]*\"|\"[^\"]*\"|[A-Za-z_][A-Za-z0-9_]*|[0-9]+|&&|\\|\\||==|!=|<=|>=|\\S")
